@@ -36,6 +36,32 @@ def main():
         impl.save_simulation()                      # first autosave completes
         adv = impl.autosave_file
         assert adv.is_file()
+        # ---- the reader: every directory state a crashed autosave can leave behind must be resumable -------
+        good = adv.read_bytes()
+        leftovers = [("no temporaries", {}),
+                     ("a truncated .new (crash inside pickle.dump)", {".new": good[: len(good) // 2]}),
+                     ("a one-byte .new", {".new": good[:1]}),
+                     ("an empty .new (crash right after open)", {".new": b""}),
+                     ("a complete .new (crash before the rename)", {".new": good}),
+                     ("a truncated .bak", {".bak": good[: len(good) // 3]}),
+                     ("truncated .new and .bak", {".new": good[:7], ".bak": good[:11]})]
+        for label, files in leftovers:
+            for fn in os.listdir(work):
+                os.remove(os.path.join(work, fn))
+            adv.write_bytes(good)
+            for suf, data in files.items():
+                adv.with_suffix(suf).write_bytes(data)
+            try:
+                res = MPSBackend.resume(adv)
+            except Exception as e:
+                print(f"REPRODUCED: MPSBackend.resume from a crash-consistent directory (complete advertised autosave, "
+                      f"{label}) fails with {type(e).__name__}: {e}; directory now holds "
+                      f"{sorted((f, os.path.getsize(os.path.join(work, f))) for f in os.listdir(work))}")
+                return 1
+        for fn in os.listdir(work):
+            os.remove(os.path.join(work, fn))
+        impl.last_save_time = -1e18
+        impl.save_simulation()
         names = ["rename", "replace", "remove"]
         orig = {n: getattr(os, n) for n in names}
         orig_dump = pickle.dump
@@ -111,7 +137,8 @@ def main():
             except Exception as e:
                 print(f"  MPSBackend.resume(advertised) -> {type(e).__name__}: {e}")
             return 1
-        print("NOT-REPRODUCED: the advertised autosave stayed loadable at every injected crash point")
+        print("NOT-REPRODUCED: the advertised autosave stayed loadable at every injected crash point; resume works from every "
+              "crash-consistent directory (truncated / empty / complete temporaries)")
         return 0
     finally:
         os.chdir(cwd)
